@@ -683,6 +683,11 @@ fn m04(p: &Classified, server_payload: u16, u: &[u8], t: &[u8]) -> Result<String
     }
     let au = sec(&mu, Section::Additional);
     let at = sec(&mt, Section::Additional);
+    if t.len() > 65535 - 512 {
+        // the TCP response is itself up against the 65535-octet limit and may have left optional
+        // records out, so it is not the complete response the comparison needs
+        return Ok(format!("tcp-at-its-own-limit:{}", limit));
+    }
     for r in &au {
         if !at.contains(r) {
             return Err(("partial-extra".into(), "UDP additional record absent from the complete response".into()));
